@@ -148,6 +148,53 @@ func genC04(w *bufio.Writer, tier string, rng *rand.Rand) {
 			fmt.Fprintf(w, "meanci %s %s\n", fmtFs(x1), fmtF(c))
 		}
 	}
+	// aimed at the numeric constants of the code: sample sizes, the statistic T itself (mu0 chosen so that the
+	// computed T lands on or next to the constant) and confidence levels
+	{
+		sizes := dictSizes(rng, 2, 120, pick(tier, 10, 100))
+		for _, nn := range sizes {
+			xs := ttValues(rng, nn, float64(rng.Intn(3))*10, math.Ldexp(1, rng.Intn(5)-2))
+			ys := ttValues(rng, 2+rng.Intn(39), float64(rng.Intn(3))*10, math.Ldexp(1, rng.Intn(5)-2))
+			alt := rng.Intn(3) - 1
+			fmt.Fprintf(w, "tt one %s [] %s %d\n", fmtFs(xs), fmtF(float64(rng.Intn(3))*10), alt)
+			fmt.Fprintf(w, "tt welch %s %s 0p-1074 %d\n", fmtFs(xs), fmtFs(ys), alt)
+			fmt.Fprintf(w, "tt pooled %s %s 0p-1074 %d\n", fmtFs(ys), fmtFs(xs), alt)
+			fmt.Fprintf(w, "meanci %s %s\n", fmtFs(xs), fmtF([]float64{0.95, 0.5, 0.999}[rng.Intn(3)]))
+		}
+		for _, t := range dictFloats(rng, pick(tier, 60, 1500)) {
+			if math.Abs(t) > 1e6 {
+				continue
+			}
+			nn := 2 + rng.Intn(39)
+			if len(sizes) > 0 && rng.Intn(3) == 0 {
+				nn = sizes[rng.Intn(len(sizes))]
+			}
+			xs := ttValues(rng, nn, float64(rng.Intn(3))*10, math.Ldexp(1, rng.Intn(5)-2))
+			m, v := 0.0, 0.0
+			for _, x := range xs {
+				m += x
+			}
+			m /= float64(nn)
+			for _, x := range xs {
+				v += (x - m) * (x - m)
+			}
+			sd := math.Sqrt(v / float64(nn-1))
+			if sd == 0 {
+				continue
+			}
+			mu0 := m - t*sd/math.Sqrt(float64(nn))
+			if math.Abs(mu0) > 1e6 {
+				continue
+			}
+			for alt := -1; alt <= 1; alt++ {
+				fmt.Fprintf(w, "tt one %s [] %s %d\n", fmtFs(xs), fmtF(mu0), alt)
+			}
+			if t > 0 && t < 1 {
+				fmt.Fprintf(w, "meanci %s %s\n", fmtFs(xs), fmtF(t))
+				fmt.Fprintf(w, "meanci %s %s\n", fmtFs(xs), fmtF(1-t))
+			}
+		}
+	}
 	// small-integer data: coincidences (equal variances, equal means, zero differences) are the rule
 	smallInts := func(n int, scale, shift float64) []float64 {
 		xs := make([]float64, n)
